@@ -30,6 +30,13 @@ def atoms(pc) -> List[Term]:
             # x not in (a, b)  ==  x != a and x != b
             for y in c[3][1]:
                 out.append(("cmp", "!=", c[2], y))
+        elif k == "cmp" and c[1] in ("is", "is not", "==", "!=") and ("const", None) in (c[2], c[3]) and strip(c[3] if c[2] == ("const", None) else c[2])[0] == "ite":
+            # None test of a gated value: definite when only one way through the gates is left
+            alts = alternatives(c, truth)
+            if len(alts) == 1:
+                out.extend(alts[0])
+            else:
+                out.append(c if truth else ("cmp", NEG[c[1]], c[2], c[3]))
         elif k == "cmp":
             out.append(c if truth else ("cmp", NEG[c[1]], c[2], c[3]))
         elif k == "call" and c[1] == ("ext", "bool") and len(c[2]) == 1:
